@@ -64,6 +64,16 @@ func OpenFile(ctx context.Context, dir string, set *Set) (*Backend, error) {
 	return &Backend{Name: "sqlite-file", Kind: 0, Vault: v, Dir: dir, sql: conn}, nil
 }
 
+// Abandon releases what the harness owns of a vault one of whose calls never returned.
+func (b *Backend) Abandon() {
+	if b.sql != nil {
+		b.sql.Close()
+	}
+	if b.Dir != "" {
+		os.RemoveAll(b.Dir)
+	}
+}
+
 func (b *Backend) Close(ctx context.Context) {
 	if b.sql != nil {
 		b.sql.Close()
